@@ -74,6 +74,7 @@ class Env:
         if not hasattr(self, "_defs"):
             self._defs = {}
         e._defs = self._defs
+        e.resolve_fn = getattr(self, "resolve_fn", None)
         e.abs_slack = getattr(self, "abs_slack", None)
         e.opaque = self.opaque
         e._counter = self._counter if hasattr(self, "_counter") else [0]
@@ -240,6 +241,23 @@ class Env:
                 return self.helpers[fn](self, [a for a in e[2]], e)
             if fn in ("T::coerce", "T::coerce_from"):
                 return self.ev(e[2][0])
+            res = getattr(self, "resolve_fn", None)
+            if res is not None:
+                got = res(fn)
+                if got is not None:
+                    params, body = got
+                    sub = self.clone()
+                    sub.vars = dict(self.vars)
+                    for p_, a in zip(params, e[2]):
+                        try:
+                            sub.vars[p_] = self.ev(a)
+                        except Undecided:
+                            sub.vars[p_] = Val(None, "opaque")
+                    for st in body[1]:
+                        sub.exec_stmt(st)
+                    if body[2] is None:
+                        raise Undecided("inlined function %s has no value" % fn)
+                    return sub.ev(body[2])
             raise Undecided("call of %s in extracted code" % fn)
         if k == "if":
             c = self.ev(e[1])
@@ -253,6 +271,20 @@ class Env:
             return Val(z3.If(c.t, a.t, b.t), a.ty)
         if k == "block":
             return self.block_value(e, None)
+        if k == "match":
+            # the scrutinee is not modelled (an enum): each arm is possible; the value is a choice between the arms
+            vals = []
+            for (pat, guard, body) in e[2]:
+                vals.append(self.ev(body) if body[0] != "block" else self.block_value(body, None))
+            out = vals[-1]
+            for v_ in reversed(vals[:-1]):
+                a_, b_ = self.unify(v_, out)
+                if a_.t.eq(b_.t):
+                    out = a_
+                    continue
+                c = self.fresh("match_arm", "bool")
+                out = Val(z3.If(c, a_.t, b_.t), a_.ty)
+            return out
         if k == "macro" and e[1] in ("t",) and e[2]:
             return self.ev(e[2][0])
         raise Undecided("expression form %s not supported: %s" % (k, rp.show(e)[:120]))
